@@ -274,8 +274,8 @@ func c04Explore(c *vlib.Ctx, try func(k c04Case)) {
 	rc := [][]int{nil, {0}, {3, 1}, {2}, {5}, {7, 11}, {0, 12}, {2, 6}, {13, 9, 4}}
 	ages, sts := ref.MaxAges(), ref.Statuses()
 	if !c.Thorough() {
-		ages = []int{0, -1, 86400, -2, 86401, math.MaxInt, math.MinInt}
-		sts = []int{0, 200, 299, 199, 300, math.MaxInt, 1<<32 + 204}
+		ages = []int{0, -1, 86400, -2, 86401, math.MaxInt, math.MinInt, 600}
+		sts = []int{0, 200, 299, 199, 300, math.MaxInt, 1<<32 + 204, 250, 456}
 	}
 	p2 := vlib.Product{Sizes: []int{len(sws), len(oc), len(mc), len(qc), len(rc), len(ages), len(sts)}}
 	c.ParRange(p2.Count(), 64, "C04/C05 field products", func(i int64) {
@@ -315,6 +315,41 @@ func c04Explore(c *vlib.Ctx, try func(k c04Case)) {
 		try(c04Make(sws[ix[0]], []int{0}, m, q, r, 0, 0, vias[ix[3]]))
 	})
 	c.States.Add(p3.Count())
+	// P4: long lists: five valid atoms with every atom of the field inserted at every position, all switches
+	type la struct{ field, idx, pos int }
+	var longs []la
+	for f, n := range []int{len(c04OA), len(c04MA), len(c04QA), len(c04RA)} {
+		for i := 0; i < n; i++ {
+			for pos := 0; pos <= 5; pos++ {
+				longs = append(longs, la{f, i, pos})
+			}
+		}
+	}
+	validO, validM, validQ, validR := []int{0, 1, 2, 3, 21}, []int{0, 1, 2, 5, 6}, []int{0, 1, 3, 5, 1}, []int{0, 1, 3, 4, 0}
+	p4 := vlib.Product{Sizes: []int{len(sws), len(longs)}}
+	c.ParRange(p4.Count(), 64, "C04/C05 long lists", func(i int64) {
+		var tmp [4]int
+		ix := p4.At(i, tmp[:0])
+		l := longs[ix[1]]
+		ins := func(base []int) []int {
+			out := append([]int{}, base[:l.pos]...)
+			out = append(out, l.idx)
+			return append(out, base[l.pos:]...)
+		}
+		o, m, q, r := validO, validM, validQ, validR
+		switch l.field {
+		case 0:
+			o = ins(validO)
+		case 1:
+			m = ins(validM)
+		case 2:
+			q = ins(validQ)
+		case 3:
+			r = ins(validR)
+		}
+		try(c04Make(sws[ix[0]], o, m, q, r, 600, 201, vias[int(i)%3]))
+	})
+	c.States.Add(p4.Count())
 	c.Set("atoms", map[string]int{"origins": len(c04OA), "methods": len(c04MA), "request_headers": len(c04QA), "response_headers": len(c04RA)})
 	c.Set("products", map[string]any{"P1_switches_x_origin_lists": p1.Sizes, "P1_max_list_len": L, "P2_all_fields": p2.Sizes, "P3_single_atoms": p3.Sizes})
 }
